@@ -103,9 +103,15 @@ theorem gap_ge_backoff (bo : Backoffs) (enforce : Bool) (script : List Att) (t :
   · rw [hv] at hv'; injection hv' with _ hra; subst hra
     simp only [effDelay] at hg hs; omega
 
-theorem verdict_429 (r : Resp) (h : r.status = 429) :
+theorem verdict_429 (r : Resp) (h : r.status = 429) (hb : bodyRaises r = false) :
     verdict (.http r) = .retry .tooMany (retryAfter r) := by
-  simp [verdict, raises, classify, retryable, h]
+  simp [verdict, raises, classify, retryable, h, hb]
+
+/-- finding F6: an error response whose body makes the error handling itself raise -/
+theorem verdict_bodyRaises (r : Resp) (hb : bodyRaises r = true) : verdict (.http r) = .raise .other := by
+  have hr : raises r.status = true := by
+    unfold bodyRaises at hb; simp only [Bool.and_eq_true] at hb; exact hb.1
+  simp [verdict, hr, hb]
 
 /-- After a 429 that asks for `Retry-After` (header or `details.retryAfterSeconds`), the next
     attempt — whenever there is one — starts no earlier than that, whatever the backoff and
@@ -136,7 +142,10 @@ theorem gap_ge_retry_after_from (bo : Backoffs) (enforce : Bool) (script : List 
           rw [htl] at h1
           simp at h1
           subst ha h0
-          rw [hf, verdict_429 r h429, hra] at hv
+          cases hbr : bodyRaises r with
+          | true => rw [hf, verdict_bodyRaises r hbr] at hv; cases hv
+          | false => ?_
+          rw [hf, verdict_429 r h429 hbr, hra] at hv
           injection hv with _ hra'
           subst hra'
           have := slept_ge (effDelay enforce (some ra) b)
@@ -160,14 +169,17 @@ theorem gap_ge_retry_after (bo : Backoffs) (enforce : Bool) (script : List Att) 
 def Fatal4xx (status : Nat) : Prop := 400 ≤ status ∧ status < 500 ∧ status ≠ 403 ∧ status ≠ 429
 
 theorem verdict_fatal (r : Resp) (h : Fatal4xx r.status) :
-    verdict (.http r) = .raise (classify r.status) := by
+    verdict (.http r) = .raise (if bodyRaises r then .other else classify r.status) := by
+  cases hbr : bodyRaises r with
+  | true => simpa using verdict_bodyRaises r hbr
+  | false => ?_
   obtain ⟨h1, h2, h3, h4⟩ := h
   have hr : raises r.status = true := by simp [raises]; omega
   have hc : retryable (classify r.status) = false := by
     unfold classify
     repeat' split
     all_goals first | rfl | omega
-  simp [verdict, hr, hc]
+  simp [verdict, hr, hc, hbr]
 
 /-- the loop never goes past an attempt whose verdict is final (success or a raise), and if it
     gets there, that attempt decides the result -/
@@ -201,19 +213,22 @@ theorem stops_at (bo : Backoffs) (enforce : Bool) (script : List Att) (i : Nat) 
           · intro h; exact this.2 (by omega)
 
 /-- Other 4xx escalate at once: wherever such a response sits in the script, no attempt follows
-    it, and if the loop reaches it the request fails with exactly that error class. -/
+    it, and if the loop reaches it the request fails with exactly that error class (or, finding F6,
+    with the foreign exception that a non-dict JSON body provokes — at once as well). -/
 theorem fatal_4xx_immediate (bo : Backoffs) (enforce : Bool) (script : List Att) (t : Int)
     (j : Nat) (a : Att) (r : Resp) (ha : script[j]? = some a) (hf : a.fault = .http r)
     (h4 : Fatal4xx r.status) :
     (request bo enforce script t).times.length ≤ j + 1 ∧
     ((request bo enforce script t).times.length = j + 1 →
-      (request bo enforce script t).outcome = .escalated (classify r.status)) :=
+      (request bo enforce script t).outcome =
+        .escalated (if bodyRaises r then .other else classify r.status)) :=
   stops_at bo enforce script 0 t j a ha _ (Or.inr ⟨_, by rw [hf]; exact verdict_fatal r h4, rfl⟩)
 
 /-- … and as the very first response: exactly one attempt, no sleep. -/
 theorem fatal_4xx_first (bo : Backoffs) (enforce : Bool) (rest : List Att) (t : Int) (r : Resp) (lat : Nat)
     (h4 : Fatal4xx r.status) :
-    request bo enforce (⟨.http r, lat⟩ :: rest) t = ⟨[t], [], .escalated (classify r.status), t + lat⟩ := by
+    request bo enforce (⟨.http r, lat⟩ :: rest) t =
+      ⟨[t], [], .escalated (if bodyRaises r then .other else classify r.status), t + lat⟩ := by
   simp [request, run_cons, verdict_fatal r h4]
 
 /-- a success ends the loop -/
@@ -281,29 +296,34 @@ theorem transient_retried_then_escalates (l : List Int) (enforce : Bool) (script
   have := transient_retried_from l enforce script 0 t (by omega) ht
   simpa [request] using this
 
-/-- which HTTP responses are transient: exactly 5xx, 403 and 429 -/
+/-- which HTTP responses are transient: exactly 5xx, 403 and 429 — except (finding F6) those whose
+    body makes the error handling raise -/
 theorem transient_http_iff (r : Resp) :
     (∃ c ra, verdict (.http r) = .retry c ra) ↔
-      (r.status = 403 ∨ r.status = 429 ∨ (500 ≤ r.status ∧ r.status < 600)) := by
+      ((r.status = 403 ∨ r.status = 429 ∨ (500 ≤ r.status ∧ r.status < 600)) ∧ bodyRaises r = false) := by
   constructor
   · rintro ⟨c, ra, h⟩
+    cases hbr : bodyRaises r with
+    | true => rw [verdict_bodyRaises r hbr] at h; cases h
+    | false => ?_
+    refine ⟨?_, rfl⟩
     unfold verdict raises at h
     by_cases h4 : 400 ≤ r.status
-    · simp only [h4, decide_true, if_true] at h
+    · simp only [h4, decide_true, if_true, hbr, Bool.false_eq_true, if_false] at h
       by_cases hr : retryable (classify r.status) = true
       · unfold classify at hr
         repeat' split at hr
         all_goals first | omega | (simp [retryable] at hr)
       · simp [hr] at h
     · simp [h4] at h
-  · intro h
+  · rintro ⟨h, hbr⟩
     have h4 : raises r.status = true := by simp [raises]; omega
     have hr : retryable (classify r.status) = true := by
       unfold classify
       repeat' split
       all_goals first | rfl | omega
     exact ⟨classify r.status, if classify r.status = ErrClass.tooMany then retryAfter r else none,
-      by simp only [verdict, h4, hr, if_true]⟩
+      by simp only [verdict, h4, hr, if_true, hbr, Bool.false_eq_true, if_false]⟩
 
 theorem ceilSec_ge (x : Int) : x ≤ ceilSec x ∧ ceilSec x < x + tickPerSec := by
   unfold ceilSec tickPerSec; omega
@@ -321,8 +341,8 @@ theorem retry_after_http_date (bo : Backoffs) (enforce : Bool) (script : List At
   have hra : retryAfter r = some (if ceilSec d < 0 then 0 else ceilSec d) := by simp [retryAfter, hd]
   have := gap_ge_retry_after bo enforce script t j tj tj' a r _ h0 h1 ha hf h429 hra
   have hge := (ceilSec_ge d).1
-  refine ⟨⟨.tooMany, retryAfter r, by rw [hf]; exact verdict_429 r h429⟩, ?_, ?_⟩ <;>
-    (split at this <;> omega)
+  obtain ⟨_, c, ra, _, hv, _⟩ := gap_eq_from bo enforce script 0 t j tj tj' a h0 h1 ha
+  refine ⟨⟨c, ra, hv⟩, ?_, ?_⟩ <;> (split at this <;> omega)
 
 /-- … and the requested delay itself never overshoots the date by a whole second -/
 theorem http_date_delay_exact (r : Resp) (d : Int) (hd : r.hdr = .date d) (hpos : 0 ≤ d) :
@@ -334,7 +354,7 @@ theorem http_date_delay_exact (r : Resp) (d : Int) (hd : r.hdr = .date d) (hpos 
 
 -- a date 2.5 s ahead is waited for 3 s (zero backoff): never earlier than requested
 example :
-    (request (ofList [0]) false [⟨.http ⟨429, .date 2560, .empty, none⟩, 0⟩] 0).times = [0, 3072] := by decide
+    (request (ofList [0]) false [⟨.http ⟨429, .date 2560, .empty, none, false⟩, 0⟩] 0).times = [0, 3072] := by decide
 
 /-- F1/F2 repaired, the unparsable forms: a 429 whose `Retry-After` is garbage or overflows
     `float()` is — at any position of any script — retried like a 429 without the header (no
@@ -342,26 +362,32 @@ example :
     (the body's `retryAfterSeconds` is not consulted, as for any present header). -/
 theorem unparsable_retry_after_uses_backoff (bo : Backoffs) (enforce : Bool) (script : List Att) (t : Int)
     (j : Nat) (a : Att) (r : Resp) (ha : script[j]? = some a) (hf : a.fault = .http r)
-    (h429 : r.status = 429) (hg : r.hdr = .garbage ∨ r.hdr = .overflow) :
+    (h429 : r.status = 429) (hg : r.hdr = .garbage ∨ r.hdr = .overflow) (hb : bodyRaises r = false) :
     verdict a.fault = .retry .tooMany none ∧
     ∀ tj tj', (request bo enforce script t).times[j]? = some tj →
       (request bo enforce script t).times[j + 1]? = some tj' →
       ∃ b, bo j = some b ∧ tj' - (tj + a.lat) = slept b := by
   have hv : verdict a.fault = .retry .tooMany none := by
-    rw [hf, verdict_429 r h429]; rcases hg with hg | hg <;> simp [retryAfter, hg]
+    rw [hf, verdict_429 r h429 hb]; rcases hg with hg | hg <;> simp [retryAfter, hg]
   refine ⟨hv, fun tj tj' h0 h1 => ?_⟩
   obtain ⟨b, c, ra, hb, hv', hgap⟩ := gap_eq_from bo enforce script 0 t j tj tj' a h0 h1 ha
   rw [hv] at hv'; injection hv' with _ hra; subst hra
   exact ⟨b, by simpa using hb, by simpa [effDelay] using hgap⟩
 
-/-! ### "never waiting less than a server-requested Retry-After" — against what the server SENT -/
+/-! ### "never waiting less than a server-requested Retry-After" — against what the server SENT
+
+  Full statement (FALSE of the code — finding F7, `retry_after_on_5xx_ignored_witness`):
+    ∀ script j a r q, a.fault = .http r → requested r = some q → a next attempt exists → q ≤ gap
+  for every retried status. The code reads Retry-After only `if isinstance(e, APITooManyRequestsError)`:
+  on 503/504/500 (where kube-apiserver does send it) and 403 the value is ignored. The `_partial`
+  theorem carries exactly that guard (`r.status = 429`); nothing else — fractions, any spelling of the
+  header name, HTTP-dates and the body's `retryAfterSeconds` are all served in full. -/
 
 /-- For a 429, whatever the server asked for — delay-seconds with or without a fraction, under any
     spelling of the header name, an HTTP-date, or the body's `retryAfterSeconds` — the next attempt,
     whenever there is one, starts no earlier than that (F4 fixed in aac39f2, F5 in e640e5e, the date
-    form in dee5a41/19d7f3b). No guard besides the status: for other statuses a Retry-After is ignored,
-    by design and as documented (see `retry_after_on_5xx_ignored_witness`). -/
-theorem gap_ge_requested (bo : Backoffs) (enforce : Bool) (script : List Att) (t : Int)
+    form in dee5a41/19d7f3b). -/
+theorem gap_ge_requested_partial (bo : Backoffs) (enforce : Bool) (script : List Att) (t : Int)
     (j : Nat) (tj tj' : Int) (a : Att) (r : Resp) (q : Int)
     (h0 : (request bo enforce script t).times[j]? = some tj)
     (h1 : (request bo enforce script t).times[j + 1]? = some tj')
@@ -458,40 +484,60 @@ theorem fractional_delay_rounded_up (bo : Backoffs) (enforce : Bool) (script : L
   have := (ceilSec_ge h).1
   omega
 
-/-- F4 repaired, positively: a delay sent as `retry-after` (any capitalisation) is honoured exactly
-    like one sent as `Retry-After` — the loop behaves identically on the two responses. -/
-theorem other_case_header_honoured (r : Resp) (h : Int) (hh : r.hdr = .otherCase h) :
-    retryAfter r = retryAfter { r with hdr := .secs h } ∧
-    verdict (.http r) = verdict (.http { r with hdr := .secs h }) := by
-  have h1 : retryAfter r = retryAfter { r with hdr := .secs h } := by simp [retryAfter, hh]
-  refine ⟨h1, ?_⟩
-  simp only [verdict, h1]
-
-/-- by design (documented: 429 only): `503` + `Retry-After: 10` with a 1 s backoff: retried after 1 s -/
+/-- negation witness of the full statement (finding F7): `503` + `Retry-After: 10` with a 1 s
+    backoff: retried after 1 s -/
 theorem retry_after_on_5xx_ignored_witness :
     ∃ (r : Resp) (q tj tj' : Int), r.status = 503 ∧ requested r = some q ∧
       (request (ofList [1024]) false [⟨.http r, 0⟩] 0).times = [tj, tj'] ∧ tj' - tj < q :=
-  ⟨⟨503, .secs 10240, .empty, none⟩, 10240, 0, 1024, rfl, rfl, by decide, by decide⟩
+  ⟨⟨503, .secs 10240, .empty, none, false⟩, 10240, 0, 1024, rfl, rfl, by decide, by decide⟩
+
+/-! ### finding F6 / F9: failures of the error handling itself, and of the body read -/
+
+/-- negation witness of "transient failures are retried" (finding F6): a 503 whose JSON body is
+    `[1]`, or a 429 (no header) whose `details.retryAfterSeconds` is `"soon"`, ends the request after
+    ONE attempt with a foreign exception, three backoffs unused. -/
+theorem body_garbage_not_retried_witness :
+    (request (ofList [0, 0, 0]) false [⟨.http ⟨503, .absent, .otherValue, none, false⟩, 0⟩] 0)
+      = ⟨[0], [], .escalated .other, 0⟩ ∧
+    (request (ofList [0, 0, 0]) false [⟨.http ⟨429, .absent, .statusJson, none, true⟩, 0⟩] 0)
+      = ⟨[0], [], .escalated .other, 0⟩ ∧
+    (request (ofList [0, 0, 0]) false [⟨.http ⟨429, .absent, .badDetails, none, false⟩, 0⟩] 0)
+      = ⟨[0], [], .escalated .other, 0⟩ := by decide
+
+/-- … in general: wherever such a response sits, nothing follows it -/
+theorem body_garbage_stops (bo : Backoffs) (enforce : Bool) (script : List Att) (t : Int)
+    (j : Nat) (a : Att) (r : Resp) (ha : script[j]? = some a) (hf : a.fault = .http r)
+    (hb : bodyRaises r = true) :
+    (request bo enforce script t).times.length ≤ j + 1 ∧
+    ((request bo enforce script t).times.length = j + 1 →
+      (request bo enforce script t).outcome = .escalated .other) :=
+  stops_at bo enforce script 0 t j a ha _ (Or.inr ⟨_, by rw [hf]; exact verdict_bodyRaises r hb, rfl⟩)
+
+/-- negation witness (finding F9): `api.get` — the server answers 200 at once, reading the body
+    raises a network error: ONE attempt, the error escalates although three backoffs are left
+    (`response.json()` is outside the retry loop). -/
+theorem body_read_failure_not_retried_witness :
+    (getJson (ofList [0, 0, 0]) false [] 0 true) = ⟨[0], [], .escalated .conn, 0⟩ := by decide
 
 -- non-vacuity: concrete scripts that meet the hypotheses, evaluated by the model
 example : (request (ofList [1024, 512]) false
-    [⟨.http ⟨500, .absent, .empty, none⟩, 256⟩, ⟨.http ⟨429, .secs 3072, .empty, none⟩, 0⟩,
-     ⟨.exc true false false false false, 128⟩, ⟨.http ⟨503, .absent, .empty, none⟩, 0⟩] 0)
+    [⟨.http ⟨500, .absent, .empty, none, false⟩, 256⟩, ⟨.http ⟨429, .secs 3072, .empty, none, false⟩, 0⟩,
+     ⟨.exc true false false false false, 128⟩, ⟨.http ⟨503, .absent, .empty, none, false⟩, 0⟩] 0)
     = ⟨[0, 1280, 4352], [1024, 3072], .escalated .conn, 4480⟩ := by decide
-example : (request (ofList [1024]) true [⟨.http ⟨429, .absent, .statusJson, some 2048⟩, 0⟩] 0).times = [0, 2048] := by decide
+example : (request (ofList [1024]) true [⟨.http ⟨429, .absent, .statusJson, some 2048, false⟩, 0⟩] 0).times = [0, 2048] := by decide
 example : Fatal4xx 404 ∧ Fatal4xx 401 ∧ Fatal4xx 422 := by unfold Fatal4xx; omega
-example : AllTransient [⟨.http ⟨403, .absent, .empty, none⟩, 0⟩, ⟨.exc false true false false false, 3⟩] := by
+example : AllTransient [⟨.http ⟨403, .absent, .empty, none, false⟩, 0⟩, ⟨.exc false true false false false, 3⟩] := by
   intro a ha; simp at ha; rcases ha with rfl | rfl
   · exact ⟨.forbidden, none, by decide⟩
   · exact ⟨.timeout, none, by decide⟩
-example : retryAfter ⟨429, .secs 2560, .text, none⟩ = some 3072 := by decide   -- "2.5" → ceil(float()) = 3 s
-example : (request (ofList [0]) false [⟨.http ⟨429, .secs 2560, .empty, none⟩, 0⟩] 0).times = [0, 3072] := by decide
-example : (request (ofList [1024]) false [⟨.http ⟨429, .otherCase 5120, .empty, none⟩, 0⟩] 0).times = [0, 5120] := by decide
-example : (request (ofList [0]) false [⟨.http ⟨429, .absent, .statusJson, some 1536⟩, 0⟩] 0).times = [0, 2048] := by decide
-example : retryAfter ⟨429, .date (-700), .text, none⟩ = some 0 := by decide      -- a date in the past: max(0, …)
-example : retryAfter ⟨429, .garbage, .statusJson, some 5120⟩ = none := by decide -- details not consulted
-example : retryAfter ⟨429, .absent, .statusJson, some 0⟩ = none := by decide      -- retryAfterSeconds: 0 is falsy
-example : retryAfter ⟨429, .secs 0, .statusJson, some 5120⟩ = some 0 := by decide -- header "0" is truthy
+example : retryAfter ⟨429, .secs 2560, .text, none, false⟩ = some 3072 := by decide   -- "2.5" → ceil(float()) = 3 s
+example : (request (ofList [0]) false [⟨.http ⟨429, .secs 2560, .empty, none, false⟩, 0⟩] 0).times = [0, 3072] := by decide
+example : (request (ofList [1024]) false [⟨.http ⟨429, .otherCase 5120, .empty, none, false⟩, 0⟩] 0).times = [0, 5120] := by decide
+example : (request (ofList [0]) false [⟨.http ⟨429, .absent, .statusJson, some 1536, false⟩, 0⟩] 0).times = [0, 2048] := by decide
+example : retryAfter ⟨429, .date (-700), .text, none, false⟩ = some 0 := by decide      -- a date in the past: max(0, …)
+example : retryAfter ⟨429, .garbage, .statusJson, some 5120, false⟩ = none := by decide -- details not consulted
+example : retryAfter ⟨429, .absent, .statusJson, some 0, false⟩ = none := by decide      -- retryAfterSeconds: 0 is falsy
+example : retryAfter ⟨429, .secs 0, .statusJson, some 5120, false⟩ = some 0 := by decide -- header "0" is truthy
 
 /-! ## `throttled` — for every delay configuration, every sequence of cycle outcomes -/
 
@@ -766,12 +812,16 @@ theorem removed_item_never_current (s : St) (h : Reach s) (k : Key) (it : Item)
   | none => rfl
   | some c => simpa using (hi.2.2.2.2.2 it.id hrem).2 k c hl
 
-/-- After a re-authentication all blocked requests proceed with fresh credentials: in a reachable
+/-- (`_partial`: "fresh" is the F3 window — not equal to any of the last 3 credentials invalidated
+    under that key with that priority; in F3's witnesses (b), (c) the blocked requester proceeds with
+    the very value it was 401'd on. Guard of the path: the vault is ready and non-empty, i.e. the
+    login delivered something.)
+    After a re-authentication all blocked requests proceed with fresh credentials: in a reachable
     state whose vault is ready and non-empty, a requester blocked inside `invalidate` can run
     through `invalidate` → the post-yield check → a new selection, and what it gets is a current
     item — whichever top-priority one `select()` picks — that is not equal to any remembered
     invalid credential of that key. The vault itself is untouched by that. -/
-theorem all_proceed_fresh (s : St) (h : Reach s) (r : Nat) (k : Key) (it : Item)
+theorem all_proceed_fresh_partial (s : St) (h : Reach s) (r : Nat) (k : Key) (it : Item)
     (hr : s.reqs r = .invalWaiting k it) (hready : s.ready = true) (hne : s.cur ≠ [])
     (k' : Key) (c : Item) (hl : lookup k' s.cur = some c) (htop : isTop s.cur c = true) :
     (∃ s', V.run s [.invalWake r, .post r, .acquire r k'] = some s' ∧ s'.reqs r = .using k' c ∧
